@@ -13,9 +13,12 @@ import (
 	"context"
 	"encoding/binary"
 	"fmt"
+	"os"
 	"regexp"
+	"runtime"
 	"strings"
 	"sync"
+	"sync/atomic"
 	"testing"
 	"testing/synctest"
 	"time"
@@ -607,5 +610,155 @@ func TestVerifC12Hostile(t *testing.T) {
 				c.Sample(map[string]any{"router": router, "hostile_peers": nBad, "inputs": nIn, "classes": classes})
 			}
 		})
+	})
+}
+
+// C12.flood — the same claim under real-time contention (no bubble, race
+// detector on): 4..8 raw peers flood a gossipsub node with well-formed RPCs as
+// fast as they can while some of them reset the node's outbound stream, close
+// or reset their own stream and come back. Afterwards the event loop must
+// answer. A probe that does not return is judged from a goroutine dump: the
+// event loop (or a goroutine it waits for) sitting in a mutex / channel
+// operation of the library is a stall; anything else is inconclusive.
+func TestVerifC12Flood(t *testing.T) {
+	vRun(t, "C12.flood", vCount(60, 1500), func(c *vCase) {
+		vRealTime.Store(true)
+		defer vRealTime.Store(false)
+		r := vNewRig(c)
+		r.n.noWait = true
+		defer r.Close()
+		app := newVScores()
+		opts := []Option{WithPeerOutboundQueueSize(c.Range(4, 64))}
+		if c.Chance(0.5) {
+			p := vFastParams()
+			p.HeartbeatInterval = 50 * time.Millisecond
+			opts = append(opts, WithGossipSubParams(p), WithPeerScore(&PeerScoreParams{AppSpecificScore: app.Get, AppSpecificWeight: 1, DecayInterval: time.Second, DecayToZero: 0.01,
+				Topics: map[string]*TopicScoreParams{}}, &PeerScoreThresholds{GossipThreshold: -1e6, PublishThreshold: -2e6, GraylistThreshold: -3e6, AcceptPXThreshold: 1e6, OpportunisticGraftThreshold: 1}))
+		}
+		if err := r.Start("gossipsub", opts...); err != nil {
+			c.Inconclusive("node: %v", err)
+			return
+		}
+		nd, me := r.nd, r.nd.ID()
+		sub, err := nd.ps.Subscribe("t")
+		if err != nil {
+			panic(err)
+		}
+		go func() {
+			for {
+				if _, err := sub.Next(nd.ctx); err != nil {
+					return
+				}
+			}
+		}()
+		nP := c.Range(4, 8)
+		var pups []*vPuppet
+		for i := 0; i < nP; i++ {
+			p := r.NewPuppet(fmt.Sprintf("f%d", i), vAllGossipProtos[c.Intn(4)], "")
+			if err := r.Attach(p, c.Chance(0.5)); err != nil {
+				c.Inconclusive("attach: %v", err)
+				return
+			}
+			p.Send(me, vSubRPC(true, "t"))
+			pups = append(pups, p)
+		}
+		time.Sleep(20 * time.Millisecond)
+		// plans are drawn up front
+		type act struct {
+			kind int
+			n    int
+		}
+		plans := make([][]act, nP)
+		for i := range plans {
+			for k, K := 0, c.Range(3, 8); k < K; k++ {
+				plans[i] = append(plans[i], act{kind: c.Intn(6), n: c.Range(20, 200)})
+			}
+		}
+		var wg sync.WaitGroup
+		var sent atomic.Int64
+		for i, p := range pups {
+			wg.Add(1)
+			go func(i int, p *vPuppet) {
+				defer wg.Done()
+				seq := uint64(i) << 32
+				for _, a := range plans[i] {
+					switch a.kind {
+					case 0, 1, 2: // a burst of small well-formed RPCs
+						for k := 0; k < a.n; k++ {
+							var rpc *pb.RPC
+							switch k % 4 {
+							case 0:
+								rpc = vSubRPC(k%8 == 0, fmt.Sprintf("x%d", k%3))
+							case 1:
+								tt := "t"
+								rpc = &pb.RPC{Control: &pb.ControlMessage{Ihave: []*pb.ControlIHave{{TopicID: &tt, MessageIDs: []string{fmt.Sprintf("i%d-%d", i, k)}}}}}
+							case 2:
+								rpc = vGraftRPC("t")
+							default:
+								seq++
+								rpc = vMsgRPC(vSignedMsg(p.key, "t", vSeqno(seq), []byte(fmt.Sprintf("m%d-%d", i, k))))
+							}
+							b, _ := rpc.Marshal()
+							if p.SendRawTimeout(me, vFrame(b), 2*time.Second) != nil {
+								break
+							}
+							sent.Add(1)
+						}
+					case 3: // reset the node's outbound stream and close our own, then come back
+						p.CloseIn(me, true)
+						p.CloseOut(me, false)
+						time.Sleep(time.Duration(a.n) * 20 * time.Microsecond)
+						p.Open(me)
+					case 4: // reset our own stream mid-flood
+						p.CloseOut(me, true)
+						p.Open(me)
+					case 5:
+						p.CloseIn(me, true)
+					}
+				}
+			}(i, p)
+		}
+		wg.Wait()
+		// ---- the probe
+		done := make(chan struct{})
+		go func() { nd.ps.GetTopics(); nd.ps.ListPeers("t"); close(done) }()
+		select {
+		case <-done:
+		case <-time.After(20 * time.Second):
+			dump := make([]byte, 4<<20)
+			dump = dump[:runtime.Stack(dump, true)]
+			var loop, holders []string
+			for _, g := range strings.Split(string(dump), "\n\n") {
+				if !strings.Contains(g, "go-libp2p-pubsub") || strings.Contains(g, "TestVerifC12Flood.func1.") && !strings.Contains(g, "pubsub.(*PubSub)") {
+					continue
+				}
+				hdr := g[:strings.IndexByte(g+"\n", '\n')]
+				if strings.Contains(g, "(*PubSub).processLoop") {
+					loop = append(loop, g)
+				} else if strings.Contains(hdr, "[chan send") || strings.Contains(hdr, "[sync.Mutex.Lock") || strings.Contains(hdr, "[sync.RWMutex") || strings.Contains(hdr, "[semacquire") {
+					holders = append(holders, g)
+				}
+			}
+			blocked := len(loop) > 0 && (strings.Contains(loop[0], "sync.Mutex.Lock") || strings.Contains(loop[0], "sync.(*Mutex).Lock") || strings.Contains(loop[0], "sync.(*RWMutex)") || strings.Contains(loop[0], "[chan send") || strings.Contains(loop[0], "[chan receive"))
+			if blocked {
+				if len(holders) > 4 {
+					holders = holders[:4]
+				}
+				// the node cannot be torn down any more: report like the stall watcher does and end the child (the runner
+				// attributes the crash to this case, names the first library frame of the event loop, and restarts behind it)
+				fmt.Printf("fatal error: VERIF-STALL case %d: the event loop does not answer 20 s after the flood ended and sits in a lock / channel operation\n\n%s\n\n%s\n", c.Idx, loop[0], strings.Join(holders, "\n\n"))
+				os.Stdout.Sync()
+				os.Exit(3)
+			}
+			c.Inconclusive("probe did not return within 20 s but the event loop is not in a lock or channel wait")
+			return
+		}
+		c.Sig(nP, sent.Load()/200)
+		c.Nontrivial(sent.Load() > 100)
+		c.Count("rpcs_sent", int(sent.Load()))
+		c.State(nP)
+		if c.Idx < 2 {
+			c.Sample(map[string]any{"peers": nP, "rpcs_sent": sent.Load(), "plans": fmt.Sprint(plans[0])})
+		}
 	})
 }
